@@ -23,6 +23,19 @@ import (
 
 var reDate = regexp.MustCompile(`D:\d{14}[+\-Z0-9']*|%%CreationDate: [^\n]*`)
 
+// SharedDashes are dash patterns passed (as the variadic slice itself) by many jobs at once.
+var dashBacking = []float64{2, 1, 3, 7, 7, 7}
+var SharedDashes = [][]float64{{0, 2, 3, 4}, {1, 2, 0}, dashBacking[:3], {0.5, 1.5, 0.5, 1.5, 0.5, 1.5}, {3, 0, 2, 1}}
+var sharedDashesWant = fmt.Sprint(SharedDashes, dashBacking)
+
+// SharedIntact reports (non-empty) when a shared input was modified by the library.
+func SharedIntact() string {
+	if got := fmt.Sprint(SharedDashes, dashBacking); got != sharedDashesWant {
+		return "shared dash patterns were modified: " + got + " want " + sharedDashesWant
+	}
+	return ""
+}
+
 // Job is one call on its own inputs; Run returns a canonical description of the result.
 type Job struct {
 	Name string
@@ -165,6 +178,30 @@ func Jobs(seed int64, n int, kinds string) []Job {
 					p := randCurvy(r)
 					off := float64(r.Intn(5))
 					return Job{fmt.Sprintf("dash/%d", s), func() string { return p.Dash(off, 1, 2, 0.5).String() }}
+				},
+				func() Job {
+					// the pattern is one of a few slices shared by every job (arguments are inputs: the library may read them
+					// concurrently but never write them); leading / trailing zeros and an odd-length sub-slice with spare capacity
+					p := randCurvy(r)
+					off, k := float64(r.Intn(5)), r.Intn(len(SharedDashes))
+					return Job{fmt.Sprintf("dashshared%d/%d", k, s), func() string { return p.Dash(off, SharedDashes[k]...).String() }}
+				},
+				func() Job {
+					// Offset with a tolerance other than the package default, next to jobs that flatten curves with the default
+					p := randCurvy(r).Flatten(0.01)
+					q := randCurvy(r)
+					tol := []float64{0.5, 0.1, 0.001}[r.Intn(3)]
+					return Job{fmt.Sprintf("offsettol/%d", s), func() string {
+						return p.Offset(0.5, tol).String() + "|" + q.Settle(canvas.NonZero).String()
+					}}
+				},
+				func() Job {
+					// system font lookup (first use builds the process-wide font list lazily)
+					name := []string{"DejaVu Serif", "serif", "no such font"}[r.Intn(3)]
+					return Job{fmt.Sprintf("sysfont/%d", s), func() string {
+						f, ok := canvas.FindSystemFont(name, canvas.FontRegular)
+						return fmt.Sprint(f, ok)
+					}}
 				})
 		}
 		if strings.Contains(kinds, "t") {
